@@ -207,7 +207,12 @@ where
                 // When the commitment is in chopped form, we require that it be evaluated
                 // in a single point.
                 debug_assert!(com_data.point_indices.len() == 1);
-                Some(point_sets[com_data.set_index][com_data.point_indices[0]])
+                // `point_indices` holds *global* point indices (order of first
+                // appearance over all queries), whereas `point_sets[set_index]`
+                // only contains the points of this commitment's set. That set
+                // has a single point, which therefore sits at position 0.
+                debug_assert!(point_sets[com_data.set_index].len() == 1);
+                Some(point_sets[com_data.set_index][0])
             } else {
                 None
             };
